@@ -272,14 +272,14 @@ def run_and_judge(D, R, cols, names, fields, eps, tc, report, sub,
     detail = {'constraints': json.loads(json.dumps(cdict, default=str)),
               'verdicts': observed, 'report': report}
     if (v.passes, v.failures) != (P, F):
-        R.viol('totals:%s' % kinds_sig, 'totals-equal-verdict-counts',
+        R.viol('totals', 'totals-equal-verdict-counts',
                dict(detail, passes=v.passes, failures=v.failures), sub)
     for f, of in observed.items():
         p = sum(1 for x in of.values() if x)
         q = len(of) - p
         fr = v.fields[f]
         if (fr.passes, fr.failures) != (p, q):
-            R.viol('field-counts:%s' % kinds_sig,
+            R.viol('field-counts',
                    'per-field-counts-equal-verdict-counts',
                    dict(detail, field=f, passes=fr.passes,
                         failures=fr.failures), sub)
@@ -304,6 +304,12 @@ def exc_discriminator(e, fams, fields, tc):
     mm = [k for k in kinds if k in ('min', 'max')]
     if 'Categorical is not ordered' in msg:
         return 'minmax-on-unordered-categorical'
+    if 'Can only use .str accessor' in msg:
+        return 'length-on-categorical-without-string-categories'
+    if isinstance(e, TypeError) and 'expected string or bytes-like' in msg \
+            and any(x['kind'] in ('min', 'max') and x['val'] is None
+                    for es in fields.values() for x in es):
+        return 'null-valued-date-bound'
     if isinstance(e, TypeError) and "not supported between instances of 'str'" \
             in msg and mm:
         return 'fuzzy-minmax-string-bound-violated'
@@ -315,16 +321,18 @@ def verdict_sig(kind, e, fam, present, tc, eps, want, got, col):
     if not present:
         return 'verdict:missing-field:%s:%s' % (kind, got)
     if e['val'] is None:
-        return 'verdict:null-valued:%s:%s' % (kind, fam)
-    base = 'verdict:%s:%s' % (kind, fam)
+        return 'verdict:null-valued:%s:%s' % (kind, fam_class(fam))
+    base = 'verdict:%s:%s' % (kind, fam_class(fam))
     if kind in ('min', 'max') and bound_class(e['val']) == 'dsa':
         return 'verdict:minmax:tz-aware-text-bound:want%s' % (
             'T' if want else 'F')
     if kind == 'allowed_values' and any(v is None for v in col) and want:
         return 'verdict:allowed_values:null-counted-as-value'
     if kind in ('min', 'max'):
-        base += ':%s:%s:eps%s' % (e.get('prec') or 'default',
-                                  bound_class(e['val']),
+        bc = bound_class(e['val'])
+        bc = {'int': 'number', 'float': 'number', 'bool': 'number',
+              'f': 'number', 'str': 'string'}.get(bc, bc)
+        base += ':%s:%s:eps%s' % (e.get('prec') or 'default', bc,
                                   'none' if eps is None else
                                   ('0' if eps == 0 else '+'))
     elif kind == 'type':
@@ -381,7 +389,7 @@ def check_frame(D, R, frame, observed, detail, kinds_sig, sub):
     except Exception as e:                              # malformed frame
         problems.append('unreadable: %r' % e)
     if problems:
-        R.viol('to_frame:%s' % kinds_sig, 'tabular-form-equals-verdicts',
+        R.viol('to_frame', 'tabular-form-equals-verdicts',
                dict(detail, problems=problems[:5],
                     frame=frame.to_dict('list') if hasattr(frame, 'to_dict')
                     else str(frame)), sub)
@@ -396,7 +404,7 @@ def check_text(R, text, observed, report, detail, kinds_sig, sub):
     F = sum(1 for of in observed.values() for x in of.values() if not x)
     mp, mf = RE_PASS.search(text), RE_FAIL.search(text)
     if not mp or not mf or int(mp.group(1)) != P or int(mf.group(1)) != F:
-        R.viol('str-totals:%s:%s' % (report, kinds_sig),
+        R.viol('str-totals:%s' % report,
                'printed-totals-equal-verdict-counts',
                dict(detail, text=text[-300:]), sub)
         return
@@ -408,7 +416,7 @@ def check_text(R, text, observed, report, detail, kinds_sig, sub):
             shown = re.search(r'^%s: \d+ failures?  \d+ pass(es)?'
                               % re.escape(f), text, re.M) is not None
             if shown != want:
-                R.viol('str-fields:%s:%s' % (report, kinds_sig),
+                R.viol('str-fields:%s' % report,
                        'report-mode-lists-documented-fields',
                        dict(detail, field=f, shown=shown, text=text[:300]),
                        sub)
@@ -547,9 +555,11 @@ class C02(Check):
                 for kind in A.KINDS:
                     yield {'L': 'nulladd', 'col': col, 'kind': kind}
         elif layer == 'pairs':
-            R = 2 if tier == 'quick' else 3
             for col in A.columns(tier):
-                if col['fam'] != 'manycat' and len(col['vals']) > R:
+                n = len(col['vals'])
+                if col['fam'] != 'manycat' and n > 2 and not (
+                        tier == 'thorough' and n == 3 and col['fam'] in
+                        ('i64', 'f64', 'Int64', 'boolobj', 'dt_ns')):
                     continue
                 for i, k1 in enumerate(A.KINDS):
                     yield {'L': 'pairs', 'col': col, 'k1': k1}
@@ -685,7 +695,9 @@ class C02(Check):
         col, kind = case['col'], case['kind']
         others = [k for k in A.KINDS if k != kind]
         ser = [A.build_series(col)]
-        if self.tier == 'thorough' and len(col['vals']) <= 2:
+        n = len(col['vals'])
+        thorough = self.tier == 'thorough'
+        if thorough and n <= 1:
             values = [e for e in A.constraint_values(col, kind, self.tier)
                       if e is not None]
         else:
@@ -703,13 +715,13 @@ class C02(Check):
             adds = [[k for k in oth if k != 'rex']]
             if kind != 'rex':
                 adds.append(['rex'])
-            if len(col['vals']) <= 1 or self.tier == 'thorough':
+            if n <= 1 or (thorough and n <= 2):
                 adds += [[k] for k in oth if k != 'rex']
             for add in adds:
                 for pos in (0, 1):
                     extra = [spec_entry(k, None) for k in add]
                     es = (base + extra) if pos == 0 else (extra + base)
-                    if pos == 1 and (len(add) > 1 or self.tier != 'thorough'):
+                    if pos == 1 and (len(add) > 1 or not thorough or n > 1):
                         continue
                     got = run_and_judge(D, R, [col], [PRESENT],
                                         OrderedDict([(PRESENT, es)]), 0.25,
@@ -792,7 +804,8 @@ class C02(Check):
         D = self.D
         col, kind = case['col'], case['kind']
         path = os.path.join(self.sandbox, 'c.tdda')
-        if self.tier == 'thorough':
+        full = self.tier == 'thorough' and len(col['vals']) <= 1
+        if full:
             values = A.constraint_values(col, kind, self.tier)
         else:
             values = pick_values(col, kind, self.tier) + [None]
@@ -800,8 +813,7 @@ class C02(Check):
             if isinstance(enc, list) and enc and enc[0] in ('dto', 'dta'):
                 continue                  # objects cannot be in a file
             vs = A.variants(kind, enc)
-            vs = vs[:6] if self.tier == 'thorough' else ([vs[0], vs[-1]]
-                                                         if len(vs) > 1 else vs)
+            vs = vs[:6] if full else ([vs[0], vs[-1]] if len(vs) > 1 else vs)
             for var in vs:
                 entries = [spec_entry(kind, enc, var['prec'])]
                 fields = OrderedDict([(PRESENT, entries)])
